@@ -3,33 +3,36 @@
 (* Matrices and vectors over Cyclo.  A matrix is a sequence of rows, a row *)
 (* is a sequence of ring elements (1-based, row/column r stands for basis  *)
 (* index r-1).  Qubit 0 is the MOST significant bit of a basis index.      *)
+(* Every constructor is wrapped in TLCEval: TLC builds function values     *)
+(* lazily and would otherwise re-evaluate a matrix entry on every access,  *)
+(* which is exponential in the nesting depth of matrix expressions.        *)
 (***************************************************************************)
-EXTENDS Cyclo, FiniteSets
+EXTENDS Cyclo, FiniteSets, TLC
 
 Dim(M) == Len(M)
 
 RECURSIVE CSumSeq(_)
 CSumSeq(s) == IF s = <<>> THEN CZero ELSE CAdd(Head(s), CSumSeq(Tail(s)))
 
-MId(n)   == [r \in 1..n |-> [c \in 1..n |-> IF r = c THEN COne ELSE CZero]]
-MZero(n) == [r \in 1..n |-> [c \in 1..n |-> CZero]]
-MMul(A, B) == [r \in 1..Len(A) |-> [c \in 1..Len(B[1]) |->
-                  CSumSeq([j \in 1..Len(B) |-> CMul(A[r][j], B[j][c])])]]
-MAdd(A, B) == [r \in 1..Len(A) |-> [c \in 1..Len(A[1]) |-> CAdd(A[r][c], B[r][c])]]
-MScale(s, A) == [r \in 1..Len(A) |-> [c \in 1..Len(A[1]) |-> CMul(s, A[r][c])]]
-MAdj(A)  == [r \in 1..Len(A[1]) |-> [c \in 1..Len(A) |-> CConj(A[c][r])]]
-MTr(A)   == [r \in 1..Len(A[1]) |-> [c \in 1..Len(A) |-> A[c][r]]]
+MId(n)   == TLCEval( [r \in 1..n |-> TLCEval([c \in 1..n |-> IF r = c THEN COne ELSE CZero])])
+MZero(n) == TLCEval( [r \in 1..n |-> TLCEval([c \in 1..n |-> CZero])])
+MMul(A, B) == TLCEval( [r \in 1..Len(A) |-> TLCEval([c \in 1..Len(B[1]) |->
+                  CSumSeq([j \in 1..Len(B) |-> CMul(A[r][j], B[j][c])])])])
+MAdd(A, B) == TLCEval( [r \in 1..Len(A) |-> TLCEval([c \in 1..Len(A[1]) |-> CAdd(A[r][c], B[r][c])])])
+MScale(s, A) == TLCEval( [r \in 1..Len(A) |-> TLCEval([c \in 1..Len(A[1]) |-> CMul(s, A[r][c])])])
+MAdj(A)  == TLCEval( [r \in 1..Len(A[1]) |-> TLCEval([c \in 1..Len(A) |-> CConj(A[c][r])])])
+MTr(A)   == TLCEval( [r \in 1..Len(A[1]) |-> TLCEval([c \in 1..Len(A) |-> A[c][r]])])
 MKron(A, B) == LET n == Len(B) m == Len(B[1]) IN
-   [r \in 1..(Len(A) * n) |-> [c \in 1..(Len(A[1]) * m) |->
-        CMul(A[((r-1) \div n) + 1][((c-1) \div m) + 1], B[((r-1) % n) + 1][((c-1) % m) + 1])]]
-MApply(A, v) == [r \in 1..Len(A) |-> CSumSeq([j \in 1..Len(v) |-> CMul(A[r][j], v[j])])]
+   TLCEval([r \in 1..(Len(A) * n) |-> TLCEval([c \in 1..(Len(A[1]) * m) |->
+        CMul(A[((r-1) \div n) + 1][((c-1) \div m) + 1], B[((r-1) % n) + 1][((c-1) % m) + 1])])])
+MApply(A, v) == TLCEval( [r \in 1..Len(A) |-> CSumSeq([j \in 1..Len(v) |-> CMul(A[r][j], v[j])])])
 IsUnitary(A) == MMul(A, MAdj(A)) = MId(Len(A))
 RECURSIVE MPow(_, _)
 MPow(A, e) == IF e = 0 THEN MId(Len(A)) ELSE IF e < 0 THEN MPow(MAdj(A), -e) ELSE MMul(A, MPow(A, e - 1))
 \* block matrix diag(I_{d}, A)
 MBlockId(d, A) == LET n == Len(A) IN
-   [r \in 1..(d + n) |-> [c \in 1..(d + n) |->
-        IF r <= d \/ c <= d THEN (IF r = c THEN COne ELSE CZero) ELSE A[r - d][c - d]]]
+   TLCEval([r \in 1..(d + n) |-> TLCEval([c \in 1..(d + n) |->
+        IF r <= d \/ c <= d THEN (IF r = c THEN COne ELSE CZero) ELSE A[r - d][c - d]])])
 MSmall(A) == \A r \in 1..Len(A) : \A c \in 1..Len(A[r]) : CSmall(A[r][c])
 VSmall(v) == \A r \in 1..Len(v) : CSmall(v[r])
 
@@ -42,8 +45,8 @@ SubIdx(i, qs, n) == IF qs = <<>> THEN 0
 SeqRange(s) == {s[j] : j \in 1..Len(s)}
 AgreeOutside(i, j, qs, n) == \A q \in (0..(n-1)) \ SeqRange(qs) : Bit(i, q, n) = Bit(j, q, n)
 \* MEANING of "gate G on the qubits qs of an n-qubit register"
-Lift(G, qs, n) == [r \in 1..2^n |-> [c \in 1..2^n |->
-     IF AgreeOutside(r-1, c-1, qs, n) THEN G[SubIdx(r-1, qs, n) + 1][SubIdx(c-1, qs, n) + 1] ELSE CZero]]
+Lift(G, qs, n) == TLCEval( [r \in 1..2^n |-> TLCEval([c \in 1..2^n |->
+     IF AgreeOutside(r-1, c-1, qs, n) THEN G[SubIdx(r-1, qs, n) + 1][SubIdx(c-1, qs, n) + 1] ELSE CZero])])
 \* pad an operator on the first m qubits to n >= m qubits (new qubits are less significant)
 Pad(U, m, n) == IF n = m THEN U ELSE MKron(U, MId(2^(n - m)))
 \* equality up to one global phase u (|u| = 1, u a ring element): decided on the first non-zero entry of B
